@@ -288,8 +288,7 @@ def dtab_latch(ctx, prog):
     ctx.floor(R, n, 7)
 
 
-def pdom_sched(ctx, prog):
-    R = "C14.PDOM-sched"
+def pdom_sched(ctx, prog, R="C14.PDOM-sched"):
     ctx.rule(R, "make_stale / add_dependency / remove_dependency set force_stale and then queue the node "
                 "(modulo is_necessary / is_in_recompute_heap / AlreadyStale); expert::invalidate propagates")
     n = 0
